@@ -110,6 +110,7 @@ package drpcmanager
 //@   ghost entry cancelled = false
 //@   ghost loop:2 cancelled = false
 //@   ghost after:(*Stream).Cancel cancelled = true
+//@   loop 1 step [C05.no-retry-after-read-error] rerr == nil && herr == nil
 //@   loop 1 step [C02.no-silent-drop] handled || (lc != nil && rpkt.ID.Stream < cid)
 //@   site send:pkts assert [C02.forward-only-invokes] (rpkt.Kind == drpcwire.KindInvoke || rpkt.Kind == drpcwire.KindInvokeMetadata) && (lc == nil || rpkt.ID.Stream > cid)
 //@   site send:pkts assert [C02.old-stream-cancelled] lc == nil || wasTerm || cancelled
